@@ -43,6 +43,7 @@ Lemma spec_step_wf e s o x : spec_wf s -> spec_wf (fst (spec_step e s o x)).
 Proof.
   intros [W1 W2 W3 W4].
   destruct o; cbn [spec_step fst]; try (constructor; assumption); try (wf_simple W1 W4; fail).
+  - (* AddBal *) destruct (z =? 0)%Z; cbn [fst]; constructor; assumption.
   - (* Revert *)
     destruct (alookup N.eqb id (sp_snaps s)) as [[saved t]|] eqn:E; cbn [fst]; [| constructor; assumption].
     constructor; cbn [sp_cur sp_fl sp_hist sp_snaps sp_set_snaps sp_set_cur]; try assumption.
